@@ -1043,7 +1043,11 @@ def run_case(case) -> CaseResult:
                     client.settings.transfers = client.settings.transfers.model_copy(
                         update={'limits': TransferLimitSettings(upload_slots=ev['n'])})
                 if client.settings.transfers.limits.upload_slots != ev['n']:
-                    raise RuntimeError('limit change did not reach the settings object')
+                    # the configured number of slots (0..4 are all legal values) was not taken over as given:
+                    # everything that follows would run under another limit than the configured one
+                    obs.violate('C05/configured-slot-limit-altered',
+                                f'upload_slots set to {ev["n"]} ({how}) but the settings hold '
+                                f'{client.settings.transfers.limits.upload_slots}')
                 res.label('limit-how:' + how)
                 obs.set_limit(ev['n'])
                 if c['poke']:
